@@ -226,4 +226,344 @@ theorem reach_feedAll {d0 : Decoder} (chunks : List Bytes) :
     · rcases ih _ evs1 h1 with ⟨evs2, h2⟩
       exact ⟨evs2, by simpa using h2⟩
 
+/-! ### limits only add raise points (simulation) -/
+
+/-- the same decoder without limits -/
+def unl (d : Decoder) : Decoder := { d with maxMem := none, maxParts := none }
+
+theorem receive_unl {d d' : Decoder} {c : Option Bytes} (h : receive d c = .ok d') :
+    receive (unl d) c = .ok (unl d') := by
+  cases c with
+  | none => simp [receive] at h; subst h; rfl
+  | some c =>
+    simp only [receive] at h
+    cases hm : d.maxMem with
+    | none => rw [hm] at h; simp at h; subst h; simp [receive, unl]
+    | some m =>
+      rw [hm] at h
+      simp only at h
+      split at h
+      · simp at h
+      · simp at h; subst h; simp [receive, unl]
+
+theorem stepData_unl {d d' : Decoder} {start : Bool} {ev : Event} (h : stepData d start = .ok (ev, d')) :
+    stepData (unl d) start = .ok (ev, unl d') := by
+  unfold stepData at h ⊢
+  have hb : (unl d).boundary = d.boundary := rfl
+  have hbuf : (unl d).buffer = d.buffer := rfl
+  rw [hb, hbuf]
+  cases hds : dataStep d.boundary start d.buffer with
+  | error e => rw [hds] at h; simp at h
+  | ok v =>
+    rcases v with ⟨p, buf', start', nx⟩
+    rw [hds] at h
+    simp only at h ⊢
+    cases hs : start' with
+    | true =>
+      rw [hs] at h; simp at h; rcases h with ⟨rfl, rfl⟩; simp [unl]
+    | false =>
+      rw [hs] at h
+      simp only [Bool.false_eq_true, if_false] at h ⊢
+      split at h
+      · rename_i hc; simp at h; rcases h with ⟨rfl, rfl⟩; simp [unl, hc]
+      · rename_i hc; simp at h; rcases h with ⟨rfl, rfl⟩; simp [unl, hc]
+
+theorem step_unl {d d' : Decoder} {ev : Event} (h : step d = .ok (ev, d')) :
+    step (unl d) = .ok (ev, unl d') := by
+  cases hst : d.state with
+  | preamble =>
+    simp only [step, hst] at h
+    simp only [step, unl, hst]
+    cases hs : searchDelimFrom d.boundary true d.searchPos d.buffer with
+    | none => rw [hs] at h; simp at h; rcases h with ⟨rfl, rfl⟩; simp
+    | some v =>
+      rcases v with ⟨s, e, f⟩
+      rw [hs] at h; simp at h; rcases h with ⟨rfl, rfl⟩; simp
+  | part =>
+    simp only [step, hst] at h
+    simp only [step, unl, hst]
+    cases hs : searchBlankFrom d.searchPos d.buffer with
+    | none => rw [hs] at h; simp at h; rcases h with ⟨rfl, rfl⟩; simp
+    | some v =>
+      rcases v with ⟨s, e⟩
+      rw [hs] at h
+      simp only at h ⊢
+      cases hh : parseHeaders (d.buffer.take s) with
+      | error err => rw [hh] at h; simp at h
+      | ok headers =>
+        rw [hh] at h
+        simp only at h ⊢
+        cases hcd : headerGet "content-disposition".toList headers with
+        | none => rw [hcd] at h; simp at h
+        | some cd =>
+          rw [hcd] at h
+          simp only at h ⊢
+          cases hpo : FormOptions.parseOptionsHeader cd with
+          | error err => rw [hpo] at h; simp at h
+          | ok v =>
+            rcases v with ⟨v0, ex⟩
+            rw [hpo] at h
+            simp only at h ⊢
+            cases hm : d.maxParts with
+            | none => rw [hm] at h; simp at h; rcases h with ⟨rfl, rfl⟩; simp
+            | some m =>
+              rw [hm] at h
+              simp only at h
+              split at h
+              · simp at h
+              · simp at h; rcases h with ⟨rfl, rfl⟩; simp
+  | dataStart =>
+    simp only [step, hst] at h
+    have := stepData_unl h
+    simpa [step, unl, hst] using this
+  | data =>
+    simp only [step, hst] at h
+    have := stepData_unl h
+    simpa [step, unl, hst] using this
+  | epilogue =>
+    simp only [step, hst] at h
+    simp only [step, unl, hst]
+    cases hc : d.complete with
+    | true => rw [hc] at h; simp at h; rcases h with ⟨rfl, rfl⟩; simp
+    | false => rw [hc] at h; simp at h; rcases h with ⟨rfl, rfl⟩; simp [hst, hc]
+  | complete =>
+    simp only [step, hst] at h
+    simp at h; rcases h with ⟨rfl, rfl⟩
+    simp [step, unl, hst]
+
+theorem nextEvent_unl {d d' : Decoder} {ev : Event} (h : nextEvent d = .ok (ev, d')) :
+    nextEvent (unl d) = .ok (ev, unl d') := by
+  have hs := nextEvent_ok h
+  unfold nextEvent at h ⊢
+  rw [hs] at h
+  rw [step_unl hs]
+  simp only at h ⊢
+  have : (unl d).complete = d.complete := rfl
+  rw [this]
+  split at h
+  · simp at h
+  · rename_i hc; simp [hc]
+
+def Run.unl (r : Run) : Run := { r with dec := Wz.Multipart.unl r.dec }
+
+theorem drain_unl (fuel : Nat) : ∀ (d : Decoder) (acc : List Event),
+    (drain fuel d acc).err = none → drain fuel (unl d) acc = (drain fuel d acc).unl := by
+  induction fuel with
+  | zero => intro d acc h; simp [drain] at h
+  | succ fuel ih =>
+    intro d acc h
+    simp only [drain] at h ⊢
+    cases hn : nextEvent d with
+    | error e => rw [hn] at h; simp at h
+    | ok v =>
+      rcases v with ⟨ev, d'⟩
+      rw [hn] at h
+      rw [nextEvent_unl hn]
+      cases ev with
+      | needData => simp [Run.unl]
+      | epilogue x => simp [Run.unl]
+      | preamble x => simp only at h ⊢; exact ih d' _ h
+      | field n hd => simp only at h ⊢; exact ih d' _ h
+      | file n f hd => simp only at h ⊢; exact ih d' _ h
+      | data x m => simp only at h ⊢; exact ih d' _ h
+
+theorem feed_unl {d : Decoder} {c : Option Bytes} (h : (feed d c).err = none) :
+    feed (unl d) c = (feed d c).unl := by
+  unfold feed at h ⊢
+  cases hr : receive d c with
+  | error e => rw [hr] at h; simp at h
+  | ok d' =>
+    rw [hr] at h
+    rw [receive_unl hr]
+    simp only at h ⊢
+    have : drainFuel (unl d') = drainFuel d' := rfl
+    rw [this]
+    exact drain_unl _ d' [] h
+
+theorem feedAll_unl (chunks : List Bytes) : ∀ (d : Decoder),
+    (feedAll d chunks).err = none → feedAll (unl d) chunks = (feedAll d chunks).unl := by
+  induction chunks with
+  | nil => intro d h; simp only [feedAll] at h ⊢; exact feed_unl h
+  | cons c cs ih =>
+    intro d h
+    simp only [feedAll] at h ⊢
+    cases he : (feed d (some c)).err with
+    | some e => rw [he] at h; simp at h; rw [he] at h; simp at h
+    | none =>
+      rw [he] at h
+      simp only at h
+      rw [feed_unl he]
+      have hdec : (feed d (some c)).unl.dec = unl (feed d (some c)).dec := rfl
+      have herr : (feed d (some c)).unl.err = none := he
+      have hev : (feed d (some c)).unl.events = (feed d (some c)).events := rfl
+      rw [herr]
+      simp only [hdec, hev]
+      rw [ih _ h]
+      simp [Run.unl, he]
+
+/-! ### `MultiPartParser.parse`: the field-size guard -/
+
+/-- two parser states that differ at most in the running field size -/
+def FormState.Sim (a b : FormState) : Prop := b.cur = a.cur ∧ b.fields = a.fields ∧ b.files = a.files
+
+theorem formEvent_unl {m : Option Nat} {st st1 st' : FormState} {ev : Event}
+    (h : formEvent m st ev = .ok st1) (hs : st.Sim st') :
+    ∃ st1', formEvent none st' ev = .ok st1' ∧ st1.Sim st1' := by
+  rcases hs with ⟨hc, hf, hg⟩
+  cases ev with
+  | preamble x => simp [formEvent] at h ⊢; subst h; exact ⟨hc, hf, hg⟩
+  | epilogue x => simp [formEvent] at h ⊢; subst h; exact ⟨hc, hf, hg⟩
+  | needData => simp [formEvent] at h ⊢; subst h; exact ⟨hc, hf, hg⟩
+  | field n hd =>
+    simp [formEvent] at h ⊢; subst h; exact ⟨rfl, hf, hg⟩
+  | file n f hd =>
+    simp [formEvent] at h ⊢; subst h; exact ⟨rfl, hf, hg⟩
+  | data x more =>
+    simp only [formEvent] at h ⊢
+    rw [hc]
+    -- the size computation succeeded under the limit
+    cases hfs : (match m, st.fieldSize with
+        | some m, some sz => if sz + x.length > m then (Except.error "RequestEntityTooLarge" : Except String (Option Nat)) else .ok (some (sz + x.length))
+        | _, fsz => .ok fsz) with
+    | error e => rw [hfs] at h; simp at h
+    | ok fsz =>
+      rw [hfs] at h
+      cases hcur : st.cur with
+      | none => rw [hcur] at h; simp at h
+      | some p =>
+        rw [hcur] at h
+        simp only at h ⊢
+        cases more with
+        | true => simp at h ⊢; subst h; exact ⟨rfl, hf, hg⟩
+        | false =>
+          simp only [Bool.false_eq_true, if_false] at h ⊢
+          cases hfile : p.isFile with
+          | true =>
+            simp [hfile] at h ⊢; subst h
+            exact ⟨rfl, hf, by simp [hg]⟩
+          | false =>
+            simp only [hfile, Bool.false_eq_true, if_false] at h ⊢
+            cases hcs : partCharset p.headers with
+            | error e => rw [hcs] at h; simp at h
+            | ok cs =>
+              rw [hcs] at h
+              simp at h ⊢; subst h
+              exact ⟨rfl, by simp [hf], hg⟩
+
+theorem formEvents_unl {m : Option Nat} (evs : List Event) : ∀ {st st1 st' : FormState},
+    formEvents m st evs = .ok st1 → st.Sim st' →
+    ∃ st1', formEvents none st' evs = .ok st1' ∧ st1.Sim st1' := by
+  induction evs with
+  | nil => intro st st1 st' h hs; simp [formEvents] at h ⊢; subst h; exact hs
+  | cons ev t ih =>
+    intro st st1 st' h hs
+    simp only [formEvents] at h ⊢
+    cases he : formEvent m st ev with
+    | error e => rw [he] at h; simp at h
+    | ok st2 =>
+      rw [he] at h
+      rcases formEvent_unl he hs with ⟨st2', he', hs'⟩
+      rw [he']
+      exact ih h hs'
+
+theorem formLoop_unl {m : Option Nat} (chunks : List (Option Bytes)) :
+    ∀ {d : Decoder} {st st1 st' : FormState},
+    formLoop m d st chunks = .ok st1 → st.Sim st' →
+    ∃ st1', formLoop none (unl d) st' chunks = .ok st1' ∧ st1.Sim st1' := by
+  induction chunks with
+  | nil => intro d st st1 st' h hs; simp [formLoop] at h ⊢; subst h; exact hs
+  | cons c cs ih =>
+    intro d st st1 st' h hs
+    simp only [formLoop] at h ⊢
+    cases hev : formEvents m st (feed d c).events with
+    | error e => rw [hev] at h; simp at h
+    | ok st2 =>
+      rw [hev] at h
+      simp only at h
+      cases herr : (feed d c).err with
+      | some e => rw [herr] at h; simp at h
+      | none =>
+        rw [herr] at h
+        simp only at h
+        rw [feed_unl herr]
+        have h1 : (feed d c).unl.events = (feed d c).events := rfl
+        have h2 : (feed d c).unl.err = none := herr
+        have h3 : (feed d c).unl.dec = unl (feed d c).dec := rfl
+        rw [h1, h2, h3]
+        rcases formEvents_unl _ hev hs with ⟨st2', hev', hs'⟩
+        rw [hev']
+        exact ih h hs'
+
+/-- the payload of every completed or current non-file part stays within the limit -/
+def FormState.FieldOk (m : Nat) (st : FormState) : Prop :=
+  ∀ p, st.cur = some p → p.isFile = false → st.fieldSize = some p.payload.length ∧ p.payload.length ≤ m
+
+theorem formEvent_fieldOk {m : Nat} {st st1 : FormState} {ev : Event}
+    (h : formEvent (some m) st ev = .ok st1) (hok : st.FieldOk m) : st1.FieldOk m := by
+  cases ev with
+  | preamble x => simp [formEvent] at h; subst h; exact hok
+  | epilogue x => simp [formEvent] at h; subst h; exact hok
+  | needData => simp [formEvent] at h; subst h; exact hok
+  | field n hd =>
+    simp [formEvent] at h; subst h
+    intro p hp _; simp at hp; subst hp; simp
+  | file n f hd =>
+    simp [formEvent] at h; subst h
+    intro p hp hf; simp at hp; subst hp; simp at hf
+  | data x more =>
+    simp only [formEvent] at h
+    cases hcur : st.cur with
+    | none =>
+      rw [hcur] at h
+      cases hfs : st.fieldSize with
+      | none => rw [hfs] at h; simp at h
+      | some sz =>
+        rw [hfs] at h; simp only at h
+        split at h <;> simp at h
+    | some p =>
+      rw [hcur] at h
+      cases hfile : p.isFile with
+      | true =>
+        -- a file part: whatever happens, the current part stays a file
+        cases hfs : st.fieldSize with
+        | none =>
+          rw [hfs] at h; simp only at h
+          cases more with
+          | true => simp at h; subst h; intro q hq hqf; simp at hq; subst hq; simp [hfile] at hqf
+          | false =>
+            simp [hfile] at h; subst h
+            intro q hq hqf; simp at hq; subst hq; simp [hfile] at hqf
+        | some sz =>
+          rw [hfs] at h; simp only at h
+          split at h
+          · simp at h
+          · simp only at h
+            cases more with
+            | true => simp at h; subst h; intro q hq hqf; simp at hq; subst hq; simp [hfile] at hqf
+            | false =>
+              simp [hfile] at h; subst h
+              intro q hq hqf; simp at hq; subst hq; simp [hfile] at hqf
+      | false =>
+        rcases hok p hcur hfile with ⟨hsz, hle⟩
+        rw [hsz] at h
+        simp only at h
+        split at h
+        · simp at h
+        · rename_i hgt
+          simp only at h
+          have hlen : (p.payload ++ x).length ≤ m := by simp at hgt ⊢; omega
+          cases more with
+          | true =>
+            simp at h; subst h
+            intro q hq _; simp at hq; subst hq
+            exact ⟨by simp, hlen⟩
+          | false =>
+            simp only [Bool.false_eq_true, if_false, hfile] at h
+            cases hcs : partCharset p.headers with
+            | error e => rw [hcs] at h; simp at h
+            | ok cs =>
+              rw [hcs] at h; simp at h; subst h
+              intro q hq _; simp at hq; subst hq
+              exact ⟨by simp, hlen⟩
+
 end Wz.Multipart
